@@ -164,6 +164,21 @@ func c17Queries() []string {
 	return out
 }
 
+// Elasticsearch _search requests: index expression | body
+func c17ESQueries() []string {
+	bodies := []string{`{"query":{"match_all":{}}}`, `{"query":{"term":{"g":"A"}}}`, `{"query":{"range":{"p":{"gte":2}}}}`,
+		`{"query":{"bool":{"must":[{"term":{"g":"A"}}],"must_not":[{"term":{"p":1}}]}}}`, `{"query":{"match":{"m":"foo"}}}`, `{"size":1,"query":{"match_all":{}}}`,
+		`{"query":{"term":{"zz":"1"}}}`, `{"query":{"nosuch":{}}}`, `{"aggs":{"x":{"terms":{"field":"g"}}},"size":0}`, `{`}
+	var out []string
+	// index expressions: the data index, patterns, unknown names, and the names the server reserves for itself
+	for _, ix := range []string{"IDX", "IDX*", "zz-no-such-index", "zz-no-such*", "*", "traces", "traces*", "red-traces", "service-dependency*", "loki-index"} {
+		for _, b := range bodies {
+			out = append(out, ix+"|"+b)
+		}
+	}
+	return out
+}
+
 func c17SQLQueries() []string {
 	return []string{"select * from IDX", "select p, g from IDX", "select * from IDX where p > 1", "select count(*) from IDX", "select count(*) from IDX group by g",
 		"select max(p), min(p) from IDX group by g", "select * from IDX order by p desc limit 2", "select zz from IDX", "select sum(mx) from IDX group by zz",
@@ -197,6 +212,24 @@ func c17QRun(w *kernel.Worker, j *c17QJob, rep *kernel.Report) (*Fail, error) {
 	}
 	for _, t := range j.Texts {
 		text := strings.ReplaceAll(t, "IDX", idx)
+		if j.Lang == "ES" {
+			// "<index expression>|<request body>" through the Elasticsearch _search handler
+			parts := strings.SplitN(text, "|", 2)
+			var hr httpRes
+			err := w.CallT("call", map[string]interface{}{"handler": "esSearch", "org": 0, "method": "POST", "uri": "/elastic/" + parts[0] + "/_search", "body": parts[1],
+				"userValues": map[string]string{"indexName": parts[0]}}, &hr, 120*time.Second)
+			if err != nil {
+				return die(t, err)
+			}
+			rep.Eval(1)
+			if hr.Status >= 400 {
+				rep.Add("answered_with_error", 1)
+			} else {
+				rep.Add("answered_with_results", 1)
+				rep.Nontrivial(j.Layout + "|" + j.Lang + "|" + t)
+			}
+			continue
+		}
 		var r QRes
 		err := w.CallT("query", Q{Index: idx, Text: text, Lang: j.Lang, Start: T0 - 10, End: T0 + 10000, Size: 100}, &r, 120*time.Second)
 		if err != nil {
@@ -326,6 +359,10 @@ func C17() int {
 					emit(c17QJob{Layout: lay, Lang: "Splunk QL", Texts: qs[i:e]})
 				}
 				emit(c17QJob{Layout: lay, Lang: "SQL", Texts: c17SQLQueries()})
+				es := c17ESQueries()
+				for i := 0; i < len(es); i += 10 {
+					emit(c17QJob{Layout: lay, Lang: "ES", Texts: es[i : i+10]})
+				}
 			}
 		},
 		Run:        c17QRun,
@@ -337,6 +374,7 @@ func C17() int {
 	}
 	if os.Getenv("VERIF_C17_ONLY") == "" || os.Getenv("VERIF_C17_ONLY") == "c" {
 		c17Lifecycle(rep, budget)
+		c17Burst(rep, budget)
 	}
 	return rep.Finish()
 }
@@ -350,10 +388,14 @@ func init() {
 		var probe struct {
 			Texts    []string `json:"texts"`
 			Scenario string   `json:"scenario"`
+			Burst    int      `json:"burst"`
 		}
 		_ = json.Unmarshal(doc, &probe)
 		if probe.Scenario != "" {
 			return MakeReplayer[c17cJob]("C17", "exploration", logPool, c17cRun)(doc)
+		}
+		if probe.Burst > 0 {
+			return MakeReplayer[c17cBurstJob]("C17", "exploration", logPool, c17cBurstRun)(doc)
 		}
 		if len(probe.Texts) > 0 {
 			return MakeReplayer[c17QJob]("C17", "exploration", logPool, c17QRun)(doc)
